@@ -521,6 +521,10 @@ func (s *state) evalCall(node *ast.CallNode) {
 		}
 	}
 
+	// rendering a {param}'s content block moved the position into that block:
+	// whatever fails inside the callee is reported at this call.
+	s.at(node)
+
 	callData.enter()
 	state := &state{
 		tmpl:       calledTmpl,
